@@ -161,6 +161,7 @@ class EqModel(object):
     def __init__(self):
         self.fastpath = False
         self.atoms = []
+        self.paths = []
         self.opaque = []
         self.abstract = False
 
@@ -211,22 +212,39 @@ def eq_model(model, ci, fdef, depth=0):
             em.fastpath = True
             continue
         main.append(atoms)
-    if len(main) != 1:
+    if not main:
+        raise Undecided('__eq__ has no non-trivial true path')
+    if len(main) > 4:
         raise Undecided('__eq__ has %d non-trivial true paths' % len(main))
-    for a in main[0]:
-        if a.kind == 'not_identity':
-            continue
-        if a.kind == 'super':
-            sup_ci, sup_fn = _next_in_mro(model, ci, '__eq__')
-            if sup_fn is None:
-                raise Undecided('super().__eq__ does not resolve')
-            sub = eq_model(model, sup_ci, sup_fn, depth + 1)
-            if sub.abstract:
-                raise Undecided('super().__eq__ is abstract')
-            em.atoms.extend(sub.atoms)
-            em.fastpath = em.fastpath or sub.fastpath
-        else:
-            em.atoms.append(a)
+    em.paths = []
+    for atoms in main:
+        path = []
+        for a in atoms:
+            if a.kind == 'not_identity':
+                continue
+            if a.kind == 'super':
+                sup_ci, sup_fn = _next_in_mro(model, ci, '__eq__')
+                if sup_fn is None:
+                    raise Undecided('super().__eq__ does not resolve')
+                sub = eq_model(model, sup_ci, sup_fn, depth + 1)
+                if sub.abstract:
+                    raise Undecided('super().__eq__ is abstract')
+                if len(sub.paths) != 1:
+                    raise Undecided('super().__eq__ has several true paths')
+                path.extend(sub.paths[0])
+                em.fastpath = em.fastpath or sub.fastpath
+            else:
+                path.append(a)
+        em.paths.append(path)
+    # the atoms every true path establishes come first; rules that need
+    # "some comparison exists" look at the union
+    em.atoms = list(em.paths[0])
+    for pth in em.paths[1:]:
+        for a in pth:
+            if not any(b.kind == a.kind and b.__dict__.get('attr') ==
+                       a.__dict__.get('attr') and b.__dict__.get('mode') ==
+                       a.__dict__.get('mode') for b in em.atoms):
+                em.atoms.append(a)
     return em
 
 
@@ -521,32 +539,42 @@ def check(ctx):
         if em.abstract:
             continue
 
-        # ---- R1: hash subset of eq -----------------------------------------
-        eq_attrs = {a.attr for a in em.atoms if a.kind == 'cmp'}
+        # ---- R1: hash subset of eq, on every path that returns True ---------
         iters = _iter_attrs(model, ci)
-        for a in em.atoms:
-            if a.kind == 'member':
-                # `for x in self` / `x in other` read what __iter__ /
-                # __getitem__ / __contains__ read
-                for k in ('__iter__', '__getitem__', '__contains__'):
-                    eq_attrs |= iters.get(k, set())
-                # explicit attribute iteration `for x in self.sets`
-                for txt in (a.iter, a.container):
-                    if '.' in txt:
-                        eq_attrs.add(txt.split('.', 1)[1])
-            if a.kind == 'cmp' and a.attr == '__len__':
-                eq_attrs |= iters.get('__len__', set())
-        # private-name aliases: self.__x read via property x
-        eq_attrs |= {x.split('__')[-1] for x in eq_attrs if '__' in x}
-        extra = {a for a in hk.attrs if a not in eq_attrs
-                 and a.split('__')[-1] not in eq_attrs}
         cons = ci.name + '.__hash__'
-        if extra:
+        worst = None
+        all_eq_attrs = set()
+        for pth in (em.paths or [em.atoms]):
+            eq_attrs = {a.attr for a in pth if a.kind == 'cmp'}
+            for a in pth:
+                if a.kind == 'member':
+                    # `for x in self` / `x in other` read what __iter__ /
+                    # __getitem__ / __contains__ read
+                    for k in ('__iter__', '__getitem__', '__contains__'):
+                        eq_attrs |= iters.get(k, set())
+                    # explicit attribute iteration `for x in self.sets`
+                    for txt in (a.iter, a.container):
+                        if '.' in txt:
+                            eq_attrs.add(txt.split('.', 1)[1])
+                if a.kind == 'cmp' and a.attr == '__len__':
+                    eq_attrs |= iters.get('__len__', set())
+            # private-name aliases: self.__x read via property x
+            eq_attrs |= {x.split('__')[-1] for x in eq_attrs if '__' in x}
+            all_eq_attrs |= eq_attrs
+            extra = {a for a in hk.attrs if a not in eq_attrs
+                     and a.split('__')[-1] not in eq_attrs}
+            if extra and worst is None:
+                worst = (extra, eq_attrs)
+        eq_attrs = all_eq_attrs
+        if worst:
+            extra, pattrs = worst
             rep.violation(
                 'R1', cons,
                 'hash key reads attribute(s) %s that __eq__ (defined in %s) '
-                'never compares: equal objects can hash differently'
-                % (sorted(extra), eci.name), hci.rel, hfn.lineno)
+                'does not compare%s: equal objects can hash differently'
+                % (sorted(extra), eci.name,
+                   ' on the path that compares only %s' % sorted(pattrs)
+                   if len(em.paths) > 1 else ''), hci.rel, hfn.lineno)
         elif hk.opaque:
             rep.undecided('R1', cons, 'unrecognised key component(s) %s'
                           % hk.opaque, hci.rel, hfn.lineno)
